@@ -147,8 +147,8 @@ CHECKS['C11'] = _gatt('Same world as C10: between an indication and its confirma
 _STACK = {'harness': 'stack_sim', 'binary': 'stack_sim'}
 _STACK_NOTE = ('trusted: the simulated radio (harness/sim_radio.hpp, the scheduled_radio contract as documented) and the central / scanner / initiator model written from the Core specification '
                '(harness/stack_world.hpp: CSA#1, anchors, transmit windows, control procedures); real code: link_layer<>, advertising, peripheral_latency, channel_map, ll_data_pdu_buffer, '
-               'll_l2cap_sdu_buffer, l2cap, signaling channel, GATT server; 12 link layer configurations: 5 option sets (buffers 61..200 bytes, latency options, variable advertising map, white list, no-auto-start, several advertising types) '
-               'each on the simulated radio and on the real nRF52 radio front end (nrf52.hpp over the Hardware stub harness/nrf_bridge.hpp: one PDU pair per event, CRC error = no reception), and 2 with link encryption; '
+               'll_l2cap_sdu_buffer, l2cap, signaling channel, GATT server; 14 link layer configurations: 5 option sets (buffers 61..200 bytes, latency options, variable advertising map, white list, no-auto-start, several advertising types) and 2 with link encryption, '
+               'each on the simulated radio and on the real nRF52 radio front end (nrf52.hpp over the Hardware stub harness/nrf_bridge.hpp: one PDU pair per event, CRC error = no reception, gap byte layout with encryption); '
                'clock drift within +-500 ppm on both sides, radio set-up margin and disarm refusals as knobs; 2 us (+2 ppm) tolerance on window checks')
 _STACK_ASSUME = ['the central obeys the Core specification unless an op says otherwise (raw/hostile PDUs excuse the checks that depend on them)', 'one connection at a time (Bluetoe peripheral)',
                  'radio of the real hardware is replaced by the contract; encryption is off (C28 is not decided here)']
@@ -180,12 +180,12 @@ CHECKS['C25']['level_note'] = CHECKS['C25']['level_note'] + '; nrf_sim: the Hard
 CHECKS['C27'] = _stack('Seeded search over every LL control opcode (known, unknown, wrong length, responses and rejects) from the central, interleaved with peripheral initiated procedures, lost packets and full buffers: one specified '
                        'answer per request (content checked for feature/unknown/version), none for responses and rejects, one LL_VERSION_IND per connection, and an unanswered peripheral procedure ends the connection after 40 s (not earlier).',
                        _ST + 'request/response bookkeeping of the central')
-CHECKS['C28'] = _stack('Two link layer configurations with link encryption (legacy security manager, bond data base with two bonds, a characteristic that requires encryption; the radio keeps an encryption flag and key per direction and the '
+CHECKS['C28'] = _stack('Two link layer configurations with link encryption, each on the simulated radio and on the real nRF52 front end with the gap byte PDU layout (legacy security manager, bond data base with two bonds, a characteristic that requires encryption; the radio keeps an encryption flag and key per direction and the '
                        'simulated air decides from flags and keys of both sides whether a PDU can be decoded). Seeded search over encryption start and pause procedures of an honest central (right key, wrong key, unknown EDIV/Rand), single '
                        'LL_START_ENC_RSP / LL_PAUSE_ENC_RSP PDUs out of order in plaintext or encrypted, pipelined LL_ENC_REQs, reads and writes of the protected characteristic, control PDUs with instants, loss, local disconnects and '
                        'reconnects: LL_START_ENC_REQ only for a request with a known key, a reject for unknown ones, the link is reported encrypted (once per completed procedure) and the protected value is served or written only for ATT '
                        'requests that arrived after a procedure in which the peripheral had committed its LL_START_ENC_REQ before the LL_START_ENC_RSP arrived, and not after a pause.', _ST + 'encryption procedure automaton, taint of the protected value',
-                       'The security tool box of these configurations is a stub (pairing itself is decided by sm_sim); keys come from the bond data base.')
+                       'The security tool box is a stub on the simulated radio and the binding\'s own on the real front end (pairing itself is decided by sm_sim); keys come from the bond data base.')
 CHECKS['C29'] = _stack('Seeded search over connect requests, lost first events, updates, remote and local terminations, supervision and procedure timeouts: the recorded application callbacks of every connection must match '
                        'requested, (established | attempt timeout), changed*, closed(reason) exactly once and in order, and nothing may be reported for a connection that was not requested.', _ST + 'callback order grammar')
 
